@@ -5,7 +5,7 @@ import DoviModel.Model.Hevc
     hevc.general <convert|demux|remove> <flags> <convtable> <items>      -> ok out=<outs> | ok bl=<outs> el=<outs> | ok bl=<outs> | err
     hevc.extract <flags> <nframes> <pres> <convtable> <items>            -> ok <hex,hex,..> | err
     hevc.inject  <flags> <nframes> <pres> <auds> <rpus> <items>          -> ok <outs> | err
-    hevc.mux     <flags> <auds> <convtable> <bl items> <el items>        -> ok <outs> | okerr <outs> | err
+    hevc.mux     <flags> <nframes> <auds> <convtable> <bl items> <el items> -> ok <outs> | okerr <outs> | err
     sei.drop <hex>                                                       -> keep <hex> | dropped | err
     sei.msgs <hex>                                                       -> ok <type:hex,..> | err
 
@@ -13,7 +13,8 @@ import DoviModel.Model.Hevc
   a = --start-code annex-b, h = --drop-hdr10plus, n = --no-add-aud, e = --eos-before-el,
   L = the first read chunk held a single start code (see `generalFrom`)
   items: `type:au:hex` joined by `,` (or `-`); convtable: `hex=hex` / `hex=-` (library refuses) joined by `,`;
-  pres: presentation numbers by decode index joined by `,`; auds / rpus: hex joined by `,`;
+  nframes: the frame count hevc_parser reports (for hevc.mux: of the BL); items labelled with it are the NALs behind
+  the last slice; pres: presentation numbers by decode index joined by `,`; auds / rpus: hex joined by `,`;
   outs: `sc:hex` joined by `,`. -/
 namespace Driver.HevcOps
 open Dovi Dovi.Hevc Driver
@@ -71,10 +72,10 @@ def run : List String → String
     match inject c (bytesTable auds) (natTable pres) nframes.toNat! ((listOf rpus).map unhex) (parseItems items) with
     | none => "err"
     | some l => "ok " ++ outsStr l
-  | ["hevc.mux", flags, auds, conv, bl, el] =>
+  | ["hevc.mux", flags, nframes, auds, conv, bl, el] =>
     let c : MCfg := { noAddAud := has flags 'n', eosBeforeEl := has flags 'e', discard := has flags 'd',
                       convSet := has flags 'c', annexb := has flags 'a', drop := has flags 'h' }
-    match mux c (bytesTable auds) (convOf (parseConv conv)) (parseItems bl) (parseItems el) with
+    match mux c (bytesTable auds) (convOf (parseConv conv)) nframes.toNat! (parseItems bl) (parseItems el) with
     | none => "err"
     | some (l, e) => (if e then "okerr " else "ok ") ++ outsStr l
   | ["sei.drop", h] =>
